@@ -79,17 +79,22 @@ PROPS["C18"] = dict(
     mask={"time", "cat", "unit", "float"},
     rule="i64 operands stratified over magnitudes 0..2^62, signs, extremes and neighbourhoods of 2^24*2^k (f32 rounding ties); "
          "every Time/DimensionlessInteger operator and assign form incl. overflow and /0 panics; conversions to/from Quantity and i64; "
-         "f32 seconds stratified over exponent/mantissa below 9e9; TryFrom on all 49 units; every mixed impl on all 49 units",
-    trusted_base=COMMON_TB + ["IEEE-754 round-to-nearest of `as f32`, `/`, `*` (RoundingSpec hypotheses: relative error 2^-24 in the normal "
-                              "range, monotone, exact on 0 and 1e9) and saturating `as i64`: assumed for the accuracy theorems, exercised "
-                              "bit-for-bit by the correspondence"],
+         "f32 seconds stratified over exponent/mantissa below 9e9; TryFrom on all 49 units; every mixed impl on all 49 units; "
+         "group sf: the CPU's raw binary32 + - * /, i64 as f32, f32 as i64 on bit patterns stratified over subnormals, smallest "
+         "normals, ties (few-significant-bit operands, neighbours one ulp apart), near-overflow and the crate's constants, compared "
+         "three ways bit-for-bit: Rust f32 = Lean Float32 = the kernel-transparent model Rrtk.Soft.rne32 about which the accuracy "
+         "theorems are proved",
+    trusted_base=COMMON_TB + ["the CPU's binary32 `+ - * /`, `as f32`, saturating `as i64` coincide with Rrtk.Soft (rne32 / trunc+saturate) — "
+                              "NOT proved (hardware), compared bit-for-bit on ~60 000 stratified operand pairs per run (group sf)"],
     assumptions=["debug build: integer overflow panics (release wraps; the property quantifies over non-overflowing inputs)"],
     partial="Proved: integer exactness (debug-build semantics), success conditions, identity of every mixed operator with its converted "
-            "form (tier S/L); and, for an ABSTRACT rounding function rn satisfying the IEEE-754 round-to-nearest contract (relative error "
-            "<= 2^-24, monotone, rn 0 = 0, rn 1e9 = 1e9), the accuracy clauses: Time->Quantity = rn(rn t / 1e9), within (2u+u^2)|s| <= |s|/2^22, "
-            "monotone in t; Quantity->Time within one rounding + 1 ns; round trip <= |t|/2^22 + 1 ns (Thm/Lemmas/C18Rounding.lean). "
-            "Trusted, not proved: that binary32 hardware arithmetic meets that contract in the range used (argument in the file header); "
-            "exercised bit-for-bit against Lean's Float32.",
+            "form (tier S/L); the accuracy clauses both for an ABSTRACT rounding function under the IEEE contract (Lemmas/C18Rounding.lean) "
+            "and, with no rounding hypothesis at all, for the CONCRETE round-to-nearest-even function Rrtk.Soft.rne32 (precision 24, "
+            "gradual underflow; Lemmas/SoftFloat.lean proves relative error 2^-24 in the normal range, absolute error 2^-150 below it, "
+            "monotonicity, exactness on representable values, idempotence): Time->Quantity = rne32(rne32 t / 1e9) within |t/1e9|/2^22 and "
+            "monotone, no intermediate overflow for any i64 (so rne32 IS the hardware result), Quantity->Time within |x*1e9|/2^24 + 1 ns for "
+            "every x, round trip within |t|/2^22 + 1 ns (Lemmas/C18Soft.lean, *_binary32). Trusted, not proved: that the hardware's binary32 "
+            "operations coincide with rne32 (three-way bit-for-bit comparison on every run).",
 )
 
 PROPS["C09"] = dict(
